@@ -1,13 +1,16 @@
 """pytest plugin (-p heaprec_plugin): records every Heap the repository's own tests construct - directly or through the models -
-and writes the PQTrace histories to $HEAPREC_OUT when the session ends.  Used by checks/x05.py; never active otherwise."""
+and every KNNSubgraph.create_arcs call,
+and writes the PQTrace histories / the recorded calls to $HEAPREC_OUT when the session ends.  Used by checks/x05.py; never active otherwise."""
 import json
 import os
 
+import arcsrec
 import heaprec
 
 
 def pytest_configure(config):
     heaprec.install()
+    arcsrec.install()
 
 
 def pytest_sessionfinish(session, exitstatus):
@@ -22,4 +25,4 @@ def pytest_sessionfinish(session, exitstatus):
         else:
             traces.append(t)
     with open(out, "w") as f:
-        json.dump({"traces": traces, "skipped": skipped, "exitstatus": int(exitstatus)}, f)
+        json.dump({"traces": traces, "skipped": skipped, "exitstatus": int(exitstatus), "arcs": arcsrec.LIVE}, f)
